@@ -27,6 +27,34 @@ type c17Fmt struct {
 	Seps   map[string]string
 }
 
+func c17BigJSON(a, f7 string) string {
+	var b strings.Builder
+	fmt.Fprintf(&b, `{"a":%q`, a)
+	for i := 0; i < 2100; i++ {
+		v := "1"
+		if i == 7 {
+			v = f7
+		}
+		fmt.Fprintf(&b, `,"f%d":%s`, i, v)
+	}
+	b.WriteString("},")
+	return b.String()
+}
+
+func c17BigXML(k, f7 string) string {
+	var b strings.Builder
+	fmt.Fprintf(&b, `<a k=%q>`, k)
+	for i := 0; i < 2100; i++ {
+		v := "1"
+		if i == 7 {
+			v = f7
+		}
+		fmt.Fprintf(&b, `<f%d>%s</f%d>`, i, v, i)
+	}
+	b.WriteString("</a>")
+	return b.String()
+}
+
 func c17Formats() []c17Fmt {
 	h := func(f string) string {
 		return `"parser_settings":{"version":"omni.2.1","file_format_type":"` + f + `"}`
@@ -76,6 +104,13 @@ func c17Formats() []c17Fmt {
 		{Name: "json-keyed-objects", Schema: `{` + h("json") + `,"transform_declarations":{"FINAL_OUTPUT":{"xpath":"/r/items/*[a!='skip']","object":{"a":{"xpath":"a"},"b":{"xpath":"b","type":"int"},"n":{"xpath":"../../name"}}}}}`,
 			Prefix: `{"name":"N","r":{"items":{`, Suffix: `"end":{"a":"skip"}}}}`, Rec: map[byte]string{'P': `"k":{"a":"x","b":[1,{"c":2}]},`, 'F': `"k":{"a":"skip","b":1},`, 'T': `"k":{"a":"x","b":"zz"},`},
 			Seps: map[string]string{"none": "", "newlines": "\n\n"}},
+		// records of more than 4096 nodes each (2 100 fields): what holds for small records holds for big ones
+		{Name: "json-big-records", Schema: `{` + h("json") + `,"transform_declarations":{"FINAL_OUTPUT":{"xpath":"/items/*[a!='skip']","object":{"a":{"xpath":"a"},"b":{"xpath":"f7","type":"int"}}}}}`,
+			Prefix: `{"items":[`, Suffix: `{"a":"skip"}]}`, Rec: map[byte]string{'P': c17BigJSON("x", "7"), 'F': c17BigJSON("skip", "7"), 'T': c17BigJSON("x", `"zz"`)},
+			Seps: map[string]string{"none": ""}},
+		{Name: "xml-big-records", Schema: `{` + h("xml") + `,"transform_declarations":{"FINAL_OUTPUT":{"xpath":"/r/a[@k!='skip']","object":{"k":{"xpath":"@k"},"b":{"xpath":"f7","type":"int"}}}}}`,
+			Prefix: `<r>`, Suffix: `</r>`, Rec: map[byte]string{'P': c17BigXML("x", "7"), 'F': c17BigXML("skip", "7"), 'T': c17BigXML("x", "zz")},
+			Seps: map[string]string{"none": ""}},
 		// a target xpath that mentions position() / last() next to the filter
 		{Name: "xml-positional-filter", Schema: `{` + h("xml") + `,"transform_declarations":{"FINAL_OUTPUT":{"xpath":"/r/g/a[position() <= 1000000 and @k!='skip']","object":{"k":{"xpath":"@k"},"b":{"xpath":"b","type":"int"},"h":{"xpath":"../../h"}}}}}`,
 			Prefix: `<r><h>H</h><g>`, Suffix: `</g></r>`, Rec: map[byte]string{'P': `<a k="x"><b>1</b><c/></a>`, 'F': `<a k="skip"><b>1</b></a>`, 'T': `<a k="x"><b>zz</b></a>`},
@@ -373,6 +408,9 @@ func init() {
 							continue
 						}
 						cs := c17Case{Fmt: f.Name, Sep: sep, Pattern: "PFTP", Driver: drv, Cycles: 1500, Heap: true}
+						if strings.HasSuffix(f.Name, "-big-records") {
+							continue // (the node-count lasso covers them; a byte walk over 4 200-node records 6 000 times is not worth its time)
+						}
 						if !c.Quick() {
 							cs.Cycles = 6000
 						}
